@@ -131,9 +131,11 @@ Qed.
 
 (* scanning a key printed at column 0 and followed by spaces, ':' and a space or line feed:
    the key text is consumed together with [j] of the [ksp] spaces *)
+Lemma or_assoc_l {A B C : Prop} : A \/ B -> A \/ B \/ C. Proof. tauto. Qed.
+
 Definition key_spec (k : key) : Prop :=
   exists c r, print_key k = c :: r /\ key_start c /\
-  forall s ksp x t, (x = 32 \/ x = 10) -> s_col s = 0 ->
+  forall s ksp x t, (x = 32 \/ x = 10 \/ x = 0) -> s_col s = 0 ->
     s_rest s = print_key k ++ sp ksp ++ 58 :: x :: t ->
     exists j, (j <= ksp)%nat /\
       key_scan s c = Ok (after s (print_key k ++ sp j), key_meaning k).
@@ -205,12 +207,17 @@ Definition item_ok (it : item) : Prop :=
 Definition starts_icomment (items : list item) : Prop :=
   match items with IComment (S _) _ _ :: _ => True | _ => False end.
 
-Lemma items_start items : forallb wf_item items = true ->
-  exists c t, print_items items ++ [0] = c :: t /\
+(* what follows the items: the end of the text, or a last line without line break that starts
+   with a key *)
+Definition fin_ok (FIN : str) : Prop := exists c t, FIN = c :: t /\ (c = 0 \/ key_start c).
+
+Lemma items_start FIN items : fin_ok FIN -> forallb wf_item items = true ->
+  exists c t, print_items items ++ FIN = c :: t /\
               (item_start c \/ (c = 32 /\ starts_icomment items)).
 Proof.
+  intros (cf & tf & Ef & Hcf).
   destruct items as [|[n tx tr|k ksp v tr] r]; intros Hwf.
-  - exists 0, []. split; [reflexivity | left; right; left; reflexivity].
+  - exists cf, tf. split; [exact Ef | left; destruct Hcf; [right; left | right; right]; assumption].
   - unfold print_items. cbn [map concat print_item]. destruct n as [|n].
     + cbn [sp repeat app]. eexists; eexists. split; [reflexivity | left; left; reflexivity].
     + rewrite sp_S. cbn [app]. eexists; eexists. split; [reflexivity | right; split; [reflexivity | exact I]].
@@ -307,9 +314,15 @@ Proof.
     destruct vsp; [discriminate|]. rewrite sp_S. cbn [app]. eexists; eexists; split; [reflexivity | left; reflexivity].
 Qed.
 
-Definition tok_inv (s : stream) (xs : list ltail) (items : list item) : Prop :=
-  s_rest s = print_ltails xs ++ print_items items ++ [0] /\ forallb wf_ltail xs = true /\
+Definition tok_inv (FIN : str) (s : stream) (xs : list ltail) (items : list item) : Prop :=
+  s_rest s = print_ltails xs ++ print_items items ++ FIN /\ forallb wf_ltail xs = true /\
   (xs = [] -> s_col s = 0).
+
+(* what the loop does on the final part *)
+Definition fin_spec (FIN : str) (PF : list (str * str)) (K : nat) : Prop :=
+  forall fuel s xs, forallb wf_ltail xs = true -> (xs = [] -> s_col s = 0) ->
+    s_rest s = print_ltails xs ++ FIN -> (K < fuel)%nat ->
+    exists toks, tokenize_f fuel s = (toks, None) /\ tok_shape toks PF.
 
 Lemma col_after_ltails s xs : (xs = [] -> s_col s = 0) -> s_col (after s (print_ltails xs)) = 0.
 Proof.
@@ -370,25 +383,33 @@ Ltac value_case_end IH r' f n HREST :=
         cbn [meaning_items app]; apply ts_kv; exact Hs ]
   end.
 
-Lemma tokenize_f_spec : forall n items, (length items <= n)%nat -> forall fuel s xs,
-  forallb wf_item items = true -> wf_adj items = true -> Forall item_ok items -> tok_inv s xs items ->
-  (length items < fuel)%nat ->
-  exists toks, tokenize_f fuel s = (toks, None) /\ tok_shape toks (meaning_items items).
+Lemma fin_spec_nul : fin_spec [0] [] 0.
 Proof.
-  induction n as [|n IH]; intros items Hn fuel s xs Hwf Hadj Hok [Hr [Hxs Hcol]] Hf;
-    (destruct fuel as [|f]; [lia|]); cbn [tokenize_f].
+  intros fuel s xs Hxs Hcol Hr Hf. destruct fuel as [|f]; [lia|]. cbn [tokenize_f].
+  assert (Hr' : s_rest s = print_ltails xs ++ sp 0 ++ 0 :: []) by exact Hr.
+  pose proof (stnt_spec xs s 0 0 [] Hxs nul_stopc Hr') as H1.
+  rewrite (tok_iter_end s _ 0 H1); [| eapply peek_after; rewrite <- app_assoc; exact Hr' | reflexivity].
+  exists []. split; [reflexivity | constructor].
+Qed.
+
+Lemma tokenize_f_spec FIN PF K : fin_ok FIN -> fin_spec FIN PF K ->
+  forall n items, (length items <= n)%nat -> forall fuel s xs,
+  forallb wf_item items = true -> wf_adj items = true -> Forall item_ok items -> tok_inv FIN s xs items ->
+  (length items + K < fuel)%nat ->
+  exists toks, tokenize_f fuel s = (toks, None) /\ tok_shape toks (meaning_items items ++ PF).
+Proof.
+  intros HFIN HFS.
+  induction n as [|n IH]; intros items Hn fuel s xs Hwf Hadj Hok [Hr [Hxs Hcol]] Hf.
   - (* no item left *)
     destruct items; [|cbn [length] in Hn; lia].
     unfold print_items in Hr. cbn [map concat app] in Hr.
-    assert (Hr' : s_rest s = print_ltails xs ++ sp 0 ++ 0 :: []) by exact Hr.
-    pose proof (stnt_spec xs s 0 0 [] Hxs nul_stopc Hr') as H1.
-    rewrite (tok_iter_end s _ 0 H1); [| eapply peek_after; rewrite <- app_assoc; exact Hr' | reflexivity].
-    exists []. split; [reflexivity | constructor].
+    apply (HFS fuel s xs Hxs Hcol Hr). cbn [length] in Hf. lia.
   - pose proof (lead_comments_spec items Hwf) as HL. pose proof (lead_comments_ok items Hok) as Hokr.
     pose proof (lead_comments_adj items Hadj) as Hadjr.
+    assert (Hf0 : (K < fuel)%nat) by (clear - Hf; lia).
     destruct (lead_comments items) as [cx r]. cbn [snd] in Hokr, Hadjr.
     destruct HL as (HL1 & HL2 & HL3 & HL4 & HL5 & HL6).
-    assert (Hr1 : s_rest s = print_ltails (xs ++ cx) ++ print_items r ++ [0]).
+    assert (Hr1 : s_rest s = print_ltails (xs ++ cx) ++ print_items r ++ FIN).
     { rewrite Hr, HL1, print_ltails_app, <- !app_assoc. reflexivity. }
     assert (Hxs1 : forallb wf_ltail (xs ++ cx) = true) by (rewrite forallb_app, Hxs, HL2; reflexivity).
     assert (Hcol1 : xs ++ cx = [] -> s_col s = 0).
@@ -397,17 +418,15 @@ Proof.
     destruct r as [|[n0 tx tr|k ksp v trail] r']; [| contradiction |].
     + (* only comments and blank lines are left *)
       unfold print_items in Hr1. cbn [map concat app] in Hr1.
-      assert (Hr' : s_rest s = print_ltails ys ++ sp 0 ++ 0 :: []) by exact Hr1.
-      pose proof (stnt_spec ys s 0 0 [] Hxs1 nul_stopc Hr') as H1.
-      rewrite (tok_iter_end s _ 0 H1); [| eapply peek_after; rewrite <- app_assoc; exact Hr' | reflexivity].
-      exists []. split; [reflexivity | constructor].
+      apply (HFS fuel s ys Hxs1 Hcol1 Hr1 Hf0).
     + (* a key/value item *)
+      destruct fuel as [|f]; [clear - Hf; lia|]. cbn [tokenize_f].
       cbn [forallb wf_item] in HL3. apply andb_true_iff in HL3 as [Hkv Hwf'].
       apply andb_true_iff in Hkv as [Hkv Hwtr]. apply andb_true_iff in Hkv as [Hwk Hwv].
       inversion Hokr as [|? ? Hio Hok']; subst. cbn [item_ok] in Hio. destruct Hio as [Hks Hvs].
       destruct Hks as (c & rk & Ek & Hkc & Hkscan).
       pose proof (wf_adj_tail _ _ Hadjr) as Hadj'.
-      destruct (items_start r' Hwf') as (c0 & t0 & HREST & Hc0').
+      destruct (items_start FIN r' HFIN Hwf') as (c0 & t0 & HREST & Hc0').
       assert (Hc0 : eats_value v = true -> item_start c0).
       { intros He. destruct Hc0' as [Hc0'|[_ Hsc]]; [exact Hc0'|].
         exfalso. apply (wf_adj_follow _ _ Hadjr); [exact He | exact Hsc]. }
@@ -425,7 +444,7 @@ Proof.
       { unfold s1. erewrite rest_after; [|exact Hr2]. rewrite Ek. reflexivity. }
       assert (Hcs1 : s_col s1 = 0) by (apply col_after_ltails; assumption).
       assert (Hp1 : peek s1 0 = Ok c) by (eapply peek0; rewrite Hrs1, Ek; reflexivity).
-      destruct (Hkscan s1 ksp x tx Hx Hcs1 Hrs1) as (j & Hj & Hkey).
+      destruct (Hkscan s1 ksp x tx (or_assoc_l Hx) Hcs1 Hrs1) as (j & Hj & Hkey).
       set (s2 := after s1 (print_key k ++ sp j)) in *.
       assert (Hrs2 : s_rest s2 = [] ++ sp (ksp - j) ++ 58 :: x :: tx).
       { unfold s2. apply rest_after. rewrite Hrs1, <- !app_assoc. f_equal. cbn [app].
@@ -441,18 +460,21 @@ Proof.
       assert (Hrs4 : s_rest s4 = sp (value_vsp v) ++ value_text v trail ++ c0 :: t0).
       { unfold s4. erewrite rest_after; [|exact Hrs3]. symmetry. exact Ex. }
       assert (Hn' : (length r' <= n)%nat) by (cbn [length] in Hn, HL5; clear - Hn HL5; lia).
-      assert (Hf' : (length r' < f)%nat) by (cbn [length] in Hf, HL5; clear - Hf HL5; lia).
+      assert (Hf' : (length r' + K < f)%nat) by (cbn [length] in Hf, HL5; clear - Hf HL5; lia).
       destruct v as [tsp cm|vsp fl tsp cm|vsp folded h lead indent first more].
       * (* key only: everything up to the next key is skipped *)
         pose proof (lead_comments_spec r' Hwf') as HL'. pose proof (lead_comments_ok r' Hok') as Hok''.
         pose proof (lead_comments_adj r' Hadj') as Hadj''.
         destruct (lead_comments r') as [cx' r'']. cbn [snd] in Hok'', Hadj''.
         destruct HL' as (HM1 & HM2 & HM3 & HM4 & HM5 & HM6).
-        destruct (items_start r'' HM3) as (c1 & t1 & HREST1 & Hc1).
+        destruct (items_start FIN r'' HFIN HM3) as (c1 & t1 & HREST1 & Hc1).
         assert (Hc1s : stopc c1).
         { destruct Hc1 as [[E|[E|E]]|[_ Hsc]]; [|subst; apply nul_stopc | apply key_start_stopc; assumption |].
           2:{ exfalso. destruct r'' as [|[[|n1] tx1 tr1|k1 ksp1 v1 trail1] r3]; cbn [starts_icomment] in Hsc; contradiction. }
-          subst c1. destruct r'' as [|[n1 tx1 tr1|k1 ksp1 v1 trail1] r3]; [discriminate | contradiction |].
+          subst c1. destruct r'' as [|[n1 tx1 tr1|k1 ksp1 v1 trail1] r3]; [| contradiction |].
+          { exfalso. destruct HFIN as (cf & tf & Ef & Hcf). unfold print_items in HREST1. cbn [map concat app] in HREST1.
+            rewrite Ef in HREST1. inversion HREST1; subst.
+            destruct Hcf as [Hcf|[Hcf|[Hcf|[_ Hcf]]]]; discriminate. }
           exfalso. clear - HREST1 HM3. cbn [forallb wf_item] in HM3.
           apply andb_true_iff in HM3 as [H _]. apply andb_true_iff in H as [H _]. apply andb_true_iff in H as [H _].
           unfold print_items in HREST1. cbn [map concat print_item] in HREST1.
@@ -466,7 +488,7 @@ Proof.
         { rewrite Hrs4. cbn [value_vsp value_text sp repeat app]. unfold L.
           rewrite print_ltails_app, print_ltails_cons, print_blanks. unfold print_ltail. cbn [fst snd].
           rewrite <- HREST1, <- !app_assoc.
-          replace (c0 :: t0) with (print_items r' ++ [0]) by exact HREST.
+          replace (c0 :: t0) with (print_items r' ++ FIN) by exact HREST.
           rewrite HM1, <- !app_assoc. reflexivity. }
         assert (HL : forallb wf_ltail L = true).
         { unfold L. cbn [app forallb]. apply andb_true_iff. split.
